@@ -60,6 +60,31 @@ CLAIMED = {
             "Real slice capacities are decided by the Go runtime; the harness realises spare capacity through the "
             "seed paths and reports the (len,cap) pairs seen.",
             "§8 C02"),
+    "C05": ("Text.tla (character-level scanner/reader/printer definition) classifies EVERY string up to a length bound "
+            "over five 14-character alphabets; TLC enumerates them (and asserts the model's own totality/round trip); "
+            "each text is fed to every read entry point of the real code under recover and a watchdog",
+            "Exhaustive small-scope totality check: 190k distinct texts of length <= 4 (quick), ~2.6M of length <= 5 "
+            "(thorough), x 8 read routes (READ nil/loaded env, READWithPreamble, Read_str with nil/empty/populated "
+            "placeholder map, read-string) followed by PRINT.",
+            "Arbitrary byte strings beyond the alphabets (invalid UTF-8, NUL) are covered by the random driver only; "
+            "trusts recover/watchdog.",
+            "§8 C05"),
+    "C06": ("Text.tla defines printer and reader; TLC enumerates data values whose strings range over every string up to "
+            "a length bound over the 12 characters the printer/reader treat specially (asserting the model's own round "
+            "trip for each), and every accepted text of the C05/C16 enumerations; the real PRINT/READ and "
+            "pr-str/read-string are replayed and compared structurally, the value read is compared with Text.tla's",
+            "Exhaustive small-scope round-trip conformance in both directions (values -> text -> values; text -> value "
+            "-> text -> value): 9.5k/113k values, 160k/400k texts.",
+            "Strings outside the alphabet only via the random driver; float literals excluded by the property.",
+            "§8 C06"),
+    "C16": ("Text.tla's reader classifies every token sequence up to a length bound as complete / completable with "
+            "closer c / malformed; TLC enumerates them; the real READ and the REPL's own multiLine classifier (verif "
+            "export) must agree on every one",
+            "Exhaustive: all token sequences of length <= 4 (quick) / <= 5 (thorough) over two 14-token alphabets "
+            "(every bracket kind, reader macros, strings/raw strings containing brackets, comments) + all character "
+            "strings of length <= 4 over the bracket alphabets (118k / 1.2M judged texts).",
+            "Input ending after a reader macro is not classified by the property (abstained).",
+            "§8 C16"),
 }
 
 NOT_YET = "check not built yet in this round (planned in DESIGN.md §8; the specification module exists or is in progress)"
